@@ -8,6 +8,7 @@
 import OQuPyVerif.Generated.StepCount
 import OQuPyVerif.Lemmas.TimeGrid
 import OQuPyVerif.Lemmas.FloatGrid
+import OQuPyVerif.Lemmas.MfDynamics
 import OQuPyVerif.Props.C13Rows.Q0
 import OQuPyVerif.Props.C13Rows.Q1
 import OQuPyVerif.Props.C13Rows.Q2
@@ -167,6 +168,40 @@ theorem compute_history_grid (numStep : Int → Rat → Int) (time : Int → Rat
 example :
     (computeAll (tempo_num_step 0 (lit 1 1)) (tempo_time 0 (lit 1 1))
       [lit 3 1, lit 2 1, lit 5 1]).dyn.times.length = 6 := by decide +kernel
+
+
+/-! ### `MeanFieldDynamics.add` / `Dynamics.add`: the statement lists regenerated from the source -/
+section AddOps
+open OQuPyVerif.MfDynamics OQuPyVerif.Generated.DynamicsAdd
+
+/-- the regenerated statements of `MeanFieldDynamics.add` put time and field into the SAME slot
+    — the bisect position of the time in the OLD time list — and hand every system its state -/
+theorem mfd_add_is_spec (s : MfSt) (t : Rat) (states : List Int) (f : Int) :
+    mfAdd s t states f = mfAddSpec s t states f := by
+  simp [mfAdd, mfd_add_ops, mfRun, mfAddSpec]
+
+/-- the regenerated statements of `Dynamics.add` are the model `dynAdd` -/
+theorem dynamics_add_is_dynAdd (d : Dyn Int) (t : Rat) (x : Int) :
+    (dynRun t x dynamics_add_ops (d, 0)).1 = dynAdd d t x := by
+  simp [dynamics_add_ops, dynRun, dynAdd]
+
+/-- **Times, fields and all systems' states stay sorted and aligned** for every history of
+    `MeanFieldDynamics.add` calls in any order of times (`m` systems). -/
+theorem mfd_sorted_aligned (m : Nat) (hist : List (Rat × List Int × Int))
+    (hlen : ∀ e ∈ hist, e.2.1.length = m) :
+    Aligned m (hist.foldl (fun s e => mfAdd s e.1 e.2.1 e.2.2) MfSt.empty) := by
+  have : (fun s (e : Rat × List Int × Int) => mfAdd s e.1 e.2.1 e.2.2)
+      = (fun s e => mfAddSpec s e.1 e.2.1 e.2.2) := by
+    funext s e; exact mfd_add_is_spec s e.1 e.2.1 e.2.2
+  rw [this]
+  exact aligned_history m hist hlen
+
+/-- non-vacuity: three out-of-order adds with two systems -/
+example : ((([( (3:Rat), [30, 31], (300:Int)), (1, [10, 11], 100), (2, [20, 21], 200)] :
+      List (Rat × List Int × Int)).foldl (fun s e => mfAdd s e.1 e.2.1 e.2.2) MfSt.empty).fields)
+    = [100, 200, 300] := by decide +kernel
+
+end AddOps
 
 /-- … hence `compute_history_grid` applies to the generated Tempo functions outright:
     after any non-empty history of `compute` calls, `Tempo`'s dynamics are exactly the grid. -/
